@@ -38,7 +38,7 @@ Definition array_binary (native_le:bool) (fmt:Z) (size:nat) (vals:list Z) : list
 (* ---------- snprintf(str, len, "%.15lg"/"%g") + strlen ---------- *)
 (* returns (characters stored before NUL, NUL stored?, return value, reads-unwritten-memory flag) *)
 Definition fp_to_str (text:list Z) (len:Z) : list Z * bool * Z * bool :=
-  if len =? 0 then ([], false, 0, true)      (* nothing written, strlen then reads the caller's bytes *)
+  if len =? 0 then ([], false, 0, false)     (* nothing written, nothing read: the functions return 0 at once (fix of observation 13) *)
   else let s := firstn (Z.to_nat (len - 1)) text in (s, true, Z.of_nat (length s), false).
 Definition double_to_str (bits len:Z) := fp_to_str (fmt_double 15 bits) len.
 Definition float_to_str (bits len:Z) := fp_to_str (fmt_float 6 bits) len.
